@@ -23,3 +23,26 @@ pub fn ok_antisymmetric(v: &mut Vec<Cell>) {
         _ => Ordering::Equal,
     });
 }
+
+pub enum Keyed {
+    Assoc(u64, usize),
+    Empty,
+}
+
+pub fn ctl_descending(v: &mut Vec<Keyed>) {
+    v.sort_by(|a, b| match (a, b) {
+        (Keyed::Assoc(k1, _), Keyed::Assoc(k2, _)) => k2.cmp(k1),
+        (Keyed::Assoc(_, _), _) => Ordering::Less,
+        (_, Keyed::Assoc(_, _)) => Ordering::Greater,
+        _ => Ordering::Equal,
+    });
+}
+
+pub fn ctl_sorted_by_value(v: &mut Vec<Keyed>) {
+    v.sort_by(|a, b| match (a, b) {
+        (Keyed::Assoc(_, v1), Keyed::Assoc(_, v2)) => v1.cmp(v2),
+        (Keyed::Assoc(_, _), _) => Ordering::Less,
+        (_, Keyed::Assoc(_, _)) => Ordering::Greater,
+        _ => Ordering::Equal,
+    });
+}
